@@ -37,9 +37,9 @@ CMDS = [0, 2, 3, 5, 17, 18, 20, 22, 23, 25, 26, 28, 29, 31, 48, 57]
 def plan(tier, prop):
     quick = tier == "quick"
     return {
-        "runs": 4000 if quick else 150000,
+        "runs": 30000 if quick else 1500000,
         "budget_s": 45 if quick else 780,
-        "chunk": 50 if quick else 200,
+        "chunk": 100 if quick else 500,
         "rule": "each run = one seeded world (n_tries, timeout, window, "
                 "buffer size, fault mix drawn per run) driving 1-6 consecutive "
                 "bursts / single sends on one connection, then a healed "
